@@ -13,6 +13,7 @@
 package main
 
 import (
+	"github.com/33cn/chain33/system/store/mavl/db/ticket"
 	"bytes"
 	"crypto/sha256"
 	"encoding/json"
@@ -634,7 +635,7 @@ func main() {
 	r.QuietStderr()
 	debug.SetGCPercent(400)
 	r.DistinctSet = "outcomes"
-	r.Rule = "states = all trees reached by BFS over histories of single writes (+ some 2-write batches) with values v1/v2 over a colliding key alphabet on the real mavl Store under plain / prefix / prune configurations (dedup on roots+raw database). Per state: honest proof of every present key at every committed root must verify; at the newest root every listed single-field change of claim and proof, every proper prefix and single-byte substitutions of the proof bytes (all 255 values for a hash-selected 1/40 of the distinct proofs in quick and for all in thorough, 5 values per position otherwise); plus all byte strings up to the tier's length against true and false claims on 1- and 3-leaf trees. A verification counts as one evaluation. Acceptance is legitimate only for a true claim with a decodable proof whose hashed path (height,size,side,last 32 sibling-hash bytes per node) equals the honest one. distinct = (mutation class, accepted-equivalent/rejected) classes observed"
+	r.Rule = "states = all trees reached by BFS over histories of single writes (+ some 2-write batches) with values v1/v2 over a colliding key alphabet on the real mavl Store under plain / prefix / prune configurations (dedup on roots+raw database). Per state: honest proof of every present key at every committed root must verify; at the newest root every listed single-field change of claim and proof, every proper prefix and single-byte substitutions of the proof bytes (all 255 values for a hash-selected 1/40 of the distinct proofs in quick and for all in thorough, 5 values per position otherwise); plus all byte strings up to the tier's length against true and false claims on 1- and 3-leaf trees. Ticket family: with the in-memory node caches on (memTree+memVal, with and without prefix) six ticket keys in all 8 closed/open assignments of the first three, a second batch, the honest proof of every key at both roots. A verification counts as one evaluation. Acceptance is legitimate only for a true claim with a decodable proof whose hashed path (height,size,side,last 32 sibling-hash bytes per node) equals the honest one. distinct = (mutation class, accepted-equivalent/rejected) classes observed"
 	r.Assume = []string{"sha256 collisions do not occur", "changes confined to bytes that are not hashed (height prefix of a sibling hash, junk on the unused side of an inner node, non-canonical protobuf encodings) may legitimately still verify for the true claim; they must not crash and must never verify a false claim", "values are the non-empty strings v1/v2"}
 
 	k5 := []string{"", "a", "ab", "a\xff", "b"}
@@ -675,6 +676,9 @@ func main() {
 	}
 
 	shortStrings(r, r.Pick(2, 3))
+	if sh, _ := r.Shard(); sh == 0 {
+		ticketFamily(r)
+	}
 	for _, h := range hs {
 		if o := os.Getenv("C03_ONLY"); o != "" && o != h.name {
 			continue
@@ -688,4 +692,89 @@ func main() {
 		r.Floors["proofs"] = 100
 	}
 	r.Finish()
+}
+
+// ticketFamily: with the in-memory node caches on (enableMemTree + enableMemVal) leaves of closed tickets are
+// served from a cache of their own. Six ticket keys (three closed, three open) are committed in every one of
+// the 8 open/closed assignments of the first three, a second batch rewrites one open ticket (so the tree of
+// the second root is built from cached nodes), and the honest proof of EVERY key at BOTH roots must verify.
+func ticketFamily(r *vx.Run) {
+	mkv := func(id string, closed bool) string {
+		st := int32(1)
+		if closed {
+			st = ticket.StatusCloseTicket
+		}
+		return string(types.Encode(&ticket.Ticket{TicketId: id, Status: st}))
+	}
+	for _, cfg := range []mvx.Cfg{{Name: "memTree+memVal", MemTree: true, MemVal: true}, {Name: "prefix+memTree+memVal", Prefix: true, MemTree: true, MemVal: true}} {
+		for mask := 0; mask < 8; mask++ {
+			run := func() string {
+				mvx.ResetGlobals(cfg)
+				st := mvx.Open(cfg, "memdb", "")
+				ids := []string{"a", "b", "c", "d", "e", "f"}
+				var kv []string
+				content := map[string]string{}
+				for i, id := range ids {
+					closed := i%2 == 0
+					if i < 3 {
+						closed = mask&(1<<i) != 0
+					}
+					k := string(ticket.TicketPrefix) + id
+					kv = append(kv, k, mkv(id, closed))
+					content[k] = mkv(id, closed)
+				}
+				r1, err := st.Set(&types.StoreSet{StateHash: drivers.EmptyRoot[:], KV: mvx.KV(kv...), Height: 1}, true)
+				if err != nil {
+					return "harness: first commit: " + err.Error()
+				}
+				k2 := string(ticket.TicketPrefix) + "f"
+				v2 := mkv("f2", false)
+				r2, err := st.Set(&types.StoreSet{StateHash: r1, KV: mvx.KV(k2, v2), Height: 2}, true)
+				if err != nil {
+					return "harness: second commit: " + err.Error()
+				}
+				for ri, root := range [][]byte{r1, r2} {
+					for k, v := range content {
+						if ri == 1 && k == k2 {
+							v = v2
+						}
+						var proof []byte
+						var err error
+						if p := vx.Catch(func() { proof, err = mavldb.GetKVPairProof(st.GetDB(), root, []byte(k), st.VerifTreeCfg()) }); p != "" {
+							return fmt.Sprintf("proof-panics| GetKVPairProof(root #%d, %q): %s", ri+1, k, p)
+						}
+						if err != nil || len(proof) == 0 {
+							return fmt.Sprintf("no-proof-for-present-key| GetKVPairProof(root #%d, %q) = %v", ri+1, k, err)
+						}
+						ok := false
+						if p := vx.Catch(func() {
+							ok = mavldb.VerifyKVPairProof(nil, root, &types.KeyValue{Key: []byte(k), Value: []byte(v)}, proof)
+						}); p != "" {
+							return fmt.Sprintf("verify-panics| honest proof of %q at root #%d: %s", k, ri+1, p)
+						}
+						if !ok {
+							return fmt.Sprintf("honest-proof-rejected:ticket-leaves| the proof the store produces for %q at root #%d does not verify (closed tickets among a,b,c: mask %03b)", k, ri+1, mask)
+						}
+						r.Count("proofs", 1)
+						r.Count("evaluations", 1)
+					}
+				}
+				return ""
+			}
+			f := run()
+			r.Count("ticket_trees", 1)
+			if strings.HasPrefix(f, "harness: ") {
+				r.Note("ticket family: %s", f)
+				continue
+			}
+			if f != "" {
+				fp := f
+				if i := strings.Index(f, "|"); i > 0 {
+					fp = f[:i]
+				}
+				r.Violate(fp+":"+cfg.Name, cfg.Name+": "+f, map[string]interface{}{"harness": "tickets", "cfg": cfg.Name, "mask": mask}, func() string { return run() })
+			}
+		}
+	}
+	mvx.ResetGlobals(mvx.Cfg{Name: "plain"})
 }
